@@ -203,6 +203,28 @@ def wire_uniqueness(ctx, rule="C03.wire-uniqueness"):
             same = True
     ctx.ob(rule, f.site, deps, "" if deps else "operations with measured parameters (filed under several wires) can be "
            "merged wire by wire: the merged command is emitted once per wire", role="guard:multi-wire", line=merges[0].lineno)
+    # ... for BOTH commands of the pair: each operand of the merge is examined by a dominating multi-wire test
+    mc0 = merges[0]
+    opnds = []
+    for e in [mc0.func.value] + list(mc0.args[:1]):
+        r_ = e
+        while isinstance(r_, (ast.Attribute, ast.Subscript)):
+            r_ = r_.value
+        if isinstance(r_, ast.Name):
+            opnds.append(r_.id)
+    for k_, nm_ in enumerate(opnds):
+        seen_ = False
+        for h, lab in conds:
+            for x in ast.walk(cfg.node(h).ast):
+                if isinstance(x, ast.Attribute) and x.attr in ("measurement_deps", "get_dependencies"):
+                    r_ = x.value
+                    while isinstance(r_, (ast.Attribute, ast.Subscript, ast.Call)):
+                        r_ = r_.func if isinstance(r_, ast.Call) else r_.value
+                    if isinstance(r_, ast.Name) and r_.id == nm_:
+                        seen_ = True
+        ctx.ob(rule, f.site, seen_, "" if seen_ else f"the multi-wire test ahead of the merge does not look at the "
+               f"{'earlier' if k_ == 0 else 'later'} command of the pair: a gate with a measured parameter is merged on one of "
+               "its wires only", role=f"guard:multi-wire:operand{k_}", line=mc0.lineno)
     ctx.ob(rule, f.site, ns, "" if ns else "multi-mode operations reach the merge", role="guard:ns", line=merges[0].lineno)
     ctx.ob(rule, f.site, same, "" if same else "operations on different registers reach the merge", role="guard:same-reg",
            line=merges[0].lineno)
@@ -257,6 +279,28 @@ def wire_uniqueness(ctx, rule="C03.wire-uniqueness"):
         ok = bool(ids) and cfg.dominates(mid, ids[0])
         ctx.ob(rule, f.site, ok, "" if ok else f"`{ast.unparse(n)[:50]}` removes commands without a successful merge of "
                "the removed pair", role=f"delete-after-merge{k}", line=n.lineno)
+    # the merged command takes the place of the pair: it is inserted at the index the pair was deleted from, with no
+    # change of that index in between
+    rd2 = rd_of(f.node)
+    dels = [n for n in walk_no_nested(f.node) if isinstance(n, ast.Delete) and n.targets and isinstance(n.targets[0], ast.Subscript)
+            and isinstance(n.targets[0].slice, ast.Slice) and n.targets[0].slice.lower is not None]
+    inss = [n for n in walk_no_nested(f.node) if isinstance(n, ast.Call) and isinstance(n.func, ast.Attribute) and
+            n.func.attr == "insert" and len(n.args) == 2]
+    if dels and inss:
+        dl, ins = dels[0], inss[0]
+        same_txt = ast.unparse(dl.targets[0].slice.lower) == ast.unparse(ins.args[0]) and \
+            dotted(dl.targets[0].value) == dotted(ins.func.value)
+        same_def = True
+        di, ii = cfg.find(dl), cfg.node_of_expr(ins)
+        for x in ast.walk(ins.args[0]):
+            if isinstance(x, ast.Name) and di and ii:
+                same_def = same_def and set(rd2.reaching(x.id, di[0])) == set(rd2.reaching(x.id, ii[0]))
+        ok = same_txt and same_def
+        ctx.ob(rule, f.site, ok, "" if ok else f"`{ast.unparse(ins)[:50]}` does not put the merged command where the pair was "
+               f"deleted (`{ast.unparse(dl)[:30]}`; index changed in between: {not same_def}): the merged gate moves across "
+               "its neighbours on the wire", role="replace-in-place", line=ins.lineno)
+    else:
+        ctx.na(rule, f.site, "deletion of the pair / insertion of the merged command not recognised")
     # MergeFailure is the only exception swallowed
     hs = [h for n in walk_no_nested(f.node) if isinstance(n, ast.Try) for h in n.handlers]
     ok = bool(hs) and all(h.type is not None and dotted(h.type) == "MergeFailure" for h in hs)
